@@ -8,7 +8,7 @@ import corecases as cc
 import surfgen as sg
 
 PROP = 'C09'
-LEAN_TARGETS = ['MorphKgc.Props.C09']
+LEAN_TARGETS = ['MorphKgc.Props.C09', 'MorphKgc.Props.C09Now']
 GEN_KEYS = ['surface']
 M = 'MorphKgc.Props.C09'
 THEOREMS = [{'name': f'Props.C09.{n}', 'module': M} for n in [
@@ -27,6 +27,8 @@ THEOREMS = [{'name': f'Props.C09.{n}', 'module': M} for n in [
     {'name': 'Model.rows_splitPoms', 'module': 'MorphKgc.Lemmas.SurfaceSplit'},
     {'name': 'Model.evalAll_resp', 'module': 'MorphKgc.Lemmas.SurfaceEval'},
     {'name': 'Model.post_resp', 'module': 'MorphKgc.Lemmas.SurfaceEval'}]
+# hypothesis-free theorems of the repaired shapes the translator reads from /repo now (Props/C09Now.lean)
+THEOREMS += [{'name': f'Props.C09.{n}', 'module': 'MorphKgc.Props.C09Now'} for n in ['C09_current_yarrrml_shapes', 'C09_yarrrml_template_current', 'C09_yarrrml_term_current', 'C09_current_object_delivery', 'C09_pomFactor_current']]
 RULE = ('ONE abstract document (core fragment + referencing object maps; 1-3 triples maps, 0-3 predicate-object maps with 1-2 predicate / '
         'object / graph maps, classes, subject graph maps, rr:defaultGraph, language tags, datatypes incl. xsd:string) over CSV tables or the '
         'same tables in SQLite is rendered by tools/surfgen.py into 8-12 spellings per case: vocabulary R2RML (SQLite only) / RML / legacy RML '
